@@ -78,7 +78,7 @@ def make_case(rng, nodes, imps, pool=None, force_kinds=None):
             "lobj": [] if anything else objs, "la": "1" if anything else "0"}
     # now and then the architecture object receives its last layer(s) only after the rule has been started on it
     late = rng.randint(1, len(arch) - 1) if rng.random() < 0.15 else 0
-    return {"nodes": nodes, "imps": imps, "arch": arch, "lops": lops, "spec": spec, "late": late,
+    return {"nodes": nodes, "imps": imps, "arch": arch, "lops": lops, "spec": spec, "late": late, "_layers": layers,
             "_subject_mods": next(ms for n, _, ms in layers if n == subj)}
 
 
